@@ -166,3 +166,50 @@ func psTimeWire(n int, neg bool, days, h, m, s, us int) []byte {
 	}
 	return b
 }
+
+// ---- type families for re-binding a statement with different declared types
+
+// psFamilies are the type families of well-formed parameters the C16 histories bind.
+var psFamilies = []string{"varstring", "longlong", "tiny", "short", "long", "float", "double", "blob", "date", "datetime", "time", "nulltype"}
+
+// psFamValue builds the wire parameter of family fam for the small seed n together with
+// the value the monitor expects to see in the statement text.
+func psFamValue(fam string, n int) (mycli.Param, psWant) {
+	switch fam {
+	case "varstring":
+		v := []byte(fmt.Sprintf("s%da", n))
+		return mycli.Param{Type: mycli.TVarString, Raw: mycli.LenEncBytes(v)}, psWant{Kind: "bytes", Bytes: v}
+	case "blob":
+		v := []byte(fmt.Sprintf("b%dz", n))
+		return mycli.Param{Type: mycli.TBlob, Raw: mycli.LenEncBytes(v)}, psWant{Kind: "bytes", Bytes: v}
+	case "tiny":
+		v := n%100 + 1
+		return mycli.Param{Type: mycli.TTiny, Raw: psLE(1, uint64(v))}, psWant{Kind: "int", Int: fmt.Sprint(v)}
+	case "short":
+		v := 2000 + n%20000
+		return mycli.Param{Type: mycli.TShort, Raw: psLE(2, uint64(v))}, psWant{Kind: "int", Int: fmt.Sprint(v)}
+	case "long":
+		v := 300000 + n
+		return mycli.Param{Type: mycli.TLong, Raw: psLE(4, uint64(v))}, psWant{Kind: "int", Int: fmt.Sprint(v)}
+	case "longlong":
+		v := 1000 + n
+		return mycli.Param{Type: mycli.TLongLong, Raw: psLE(8, uint64(v))}, psWant{Kind: "int", Int: fmt.Sprint(v)}
+	case "float":
+		f := float32(n) + 0.5
+		return mycli.Param{Type: mycli.TFloat, Raw: psF32(psF32Bits(f))}, psWant{Kind: "f32", Bits: uint64(psF32Bits(f))}
+	case "double":
+		f := float64(n) + 0.25
+		return mycli.Param{Type: mycli.TDouble, Raw: psF64(psF64Bits(f))}, psWant{Kind: "f64", Bits: psF64Bits(f)}
+	case "date":
+		t := [7]int{2001, 1 + n%12, 1 + n%28, 0, 0, 0, 0}
+		return mycli.Param{Type: mycli.TDate, Raw: psDateWire(4, t)}, psWant{Kind: "date", T: t}
+	case "datetime":
+		t := [7]int{2001, 2, 3, 4, n % 60, (n / 60) % 60, 0}
+		return mycli.Param{Type: mycli.TDateTime, Raw: psDateWire(7, t)}, psWant{Kind: "datetime", T: t}
+	case "time":
+		w := psWant{Kind: "time"}
+		w.T[3], w.T[4], w.T[5] = 1, n%60, (n/60)%60
+		return mycli.Param{Type: mycli.TTime, Raw: psTimeWire(8, false, 0, 1, n%60, (n/60)%60, 0)}, w
+	}
+	return mycli.Param{Type: mycli.TNull}, psWant{Kind: "null"}
+}
